@@ -93,6 +93,8 @@ fn short_name(n: &str) -> &'static str {
         "IT"
     } else if n.ends_with("::Missing") {
         "MISSING"
+    } else if n.contains("BestObjectiveValue") {
+        "BV"
     } else {
         "UNKNOWN"
     }
@@ -103,6 +105,8 @@ fn val(v: &Value) -> i64 {
     match (v.as_i64(), v.as_f64()) {
         (Some(i), _) => i,
         (None, Some(f)) => (f * 4.0).round() as i64,
+        // a value that is present but is no number (e.g. a non-finite float of a binary export): not "missing"
+        _ if v.is_string() => 777_777,
         _ => NOVAL,
     }
 }
@@ -143,6 +147,7 @@ fn cbor_to_json(v: &ciborium::value::Value) -> Value {
         C::Text(s) => json!(s),
         C::Null => Value::Null,
         C::Bool(b) => json!(b),
+        C::Float(f) if !f.is_finite() => json!("nonfinite"),
         C::Float(f) => json!(f),
         C::Array(a) => Value::Array(a.iter().map(cbor_to_json).collect()),
         C::Map(m) => Value::Object(m.iter().map(|(k, x)| {
@@ -423,6 +428,8 @@ fn run_case(out: &mut Out, run: u64, case: &Value) {
                 "U" => ValueOf::<U>::entry::<P>(),
                 "IT" => ValueOf::<Iterations>::entry::<P>(),
                 "MISSING" => ValueOf::<Missing>::entry::<P>(),
+                // the best objective value found so far: these runs never record one, the source is missing
+                "BV" => mahf::lens::common::BestObjectiveValueLens::<P>::entry(),
                 other => panic!("unknown source {other}"),
             };
             cfg.with(trigger, extractor);
@@ -533,7 +540,7 @@ pub fn main(args: &Args) -> usize {
                     let rules: Vec<Value> = (0..nrules)
                         .map(|_| {
                             let tk = ["always", "never", "every2", "scripted"][rng.gen_range(0..4)];
-                            let src = ["K0", "U", "IT", "MISSING", "PG"][rng.gen_range(0..5)];
+                            let src = ["K0", "U", "IT", "MISSING", "PG", "BV"][rng.gen_range(0..6)];
                             json!({"tk": tk, "src": src})
                         })
                         .collect();
